@@ -373,12 +373,19 @@ def lifecycle_scenario(r):
         finds.append((max(0, te + off), ("dg", a, mc, [f.create_find_entry(3)])))
     raw.extend(finds)
     raw.append((te, ("api", stop_api)))
+    restart = None
     if r.random() < 0.5:
-        t2 = te + r.choice([1, collect, collect + 1, T // 2, T])
-        raw.append((t2, ("api", {16: [15], 1: [0], 18: [17, 1]}[stop_api[0]])))
+        t2 = te + r.choice([0, 1, collect, collect + 1, T // 2, T])
+        restart = (t2, ("api", {16: [15], 1: [0], 18: [17, 1]}[stop_api[0]]))
+        if t2 != te:
+            raw.append(restart)
     # stable sort: events of one instant keep their relative order, which is randomised here
     r.shuffle(raw)
     raw.sort(key=lambda x: x[0])
+    if restart is not None and restart[0] == te:
+        # restart in the very iteration of the stop: directly after it (the other order would be a double start)
+        k = [j for j, x in enumerate(raw) if x[0] == te and x[1] == ("api", stop_api)][0]
+        raw.insert(k + 1, restart)
     events = []
     for t, ev in raw:
         if ev[0] == "dg":
